@@ -63,6 +63,9 @@ Opt-in refused close (C08): ``Session.close_refuse = True`` makes tor answer the
 object with 552 and marks the object ``dying`` (``World.close_command(line, refuse=True)``); ``c_close``/``s_close``
 /``close_step_for`` prefer dying objects like close-requested ones.
 
+Opt-in ``c_silent_extend`` (C07): a snapshot circuit gains up to two hops unreported before its first event
+(events emitted between the circuit-status answer and SETEVENTS are lost to the controller).
+
 Extra op for C09 (not in ``OPS``/``DEFAULT_WEIGHTS``): ``s_controller_wait`` (tor >= 0.4.5 with
 __LeaveStreamsUnattached=1 prints ``STREAM n CONTROLLER_WAIT 0 target`` for an unattached stream).
 To make tor attach stream ``s`` to circuit ``c`` (after an ATTACHSTREAM) use the ``s_sent`` op with the
@@ -206,6 +209,9 @@ class CircuitM(object):
         # LAUNCHED event was emitted (op c_announce) and cannot die while the 250 EXTENDED reply is withheld
         self.announced = True
         self.reply_pending = False
+        # opt-in (op c_silent_extend): number of hops tor may still add unreported, because they complete between
+        # the circuit-status answer and the moment SETEVENTS takes effect; 0 once an event was reported
+        self.silent_budget = 0
         # client view
         self.status = None               # last reported CircStatus
         self.kw = {}                     # keyword arguments of the last report
@@ -346,6 +352,7 @@ class World(object):
                 line += " REMOTE_REASON=" + remote
                 kw["REMOTE_REASON"] = remote
         rp = Report("CIRC", c, status, line, kw)
+        c.silent_budget = 0
         rp.first_sight = c.status is None
         known = len(c.view_path)
         # client view
@@ -427,6 +434,7 @@ class World(object):
             c.view_purpose = c.purpose
             c.view_build_flags = list(c.build_flags)
             c.reached_built = status == "BUILT"
+            c.silent_budget = 2
         slines = []
         for sid in sorted(self.streams):
             s = self.streams[sid]
@@ -502,6 +510,21 @@ class World(object):
 
     def _index_among(self, pred, obj):
         return self._circ_list(pred).index(obj)
+
+    def _op_c_silent_extend(self, a, b, c):
+        """Extra op (not in DEFAULT_WEIGHTS; C07 opts in): a circuit listed as LAUNCHED/EXTENDED in the snapshot
+        completes one more hop *without a report*.  TorState asks circuit-status, stream-status and
+        address-mappings/all before it sends SETEVENTS, so EXTENDED events tor emits in between never reach the
+        controller; the first event it does see for such a circuit (EXTENDED, GUARD_WAIT or BUILT) then carries
+        more than one hop beyond the snapshot's path.  At most two hops per circuit, only before its first
+        reported event; the client view is unchanged (the latest *reported* path is still the snapshot's)."""
+        circ = self._pick(self._circ_list(lambda x: x.silent_budget > 0 and x.phase == "building" and
+                                          len(x.path) < len(x.plan)), a)
+        if circ is None:
+            return None
+        circ.silent_budget -= 1
+        circ.path.append(circ.plan[len(circ.path)])
+        return None
 
     def _op_c_guard_wait(self, a, b, c):
         circ = self._pick(self._circ_list(lambda x: x.phase == "building" and x.path and
